@@ -134,6 +134,16 @@ func (s *JSONDB) ReadStatusRecent(dagFile string, n int) []*model.StatusFile {
 }
 
 func (s *JSONDB) ReadStatusToday(dagFile string) (*model.Status, error) {
+	status, err := s.readStatusToday(dagFile)
+	if errors.Is(err, os.ErrNotExist) {
+		// The compaction at the end of a run replaces <run>.dat by
+		// <run>_c.dat: a file listed a moment ago may be gone. List again.
+		status, err = s.readStatusToday(dagFile)
+	}
+	return status, err
+}
+
+func (s *JSONDB) readStatusToday(dagFile string) (*model.Status, error) {
 	files, err := s.latestToday(dagFile, time.Now(), s.latestStatusToday)
 	if err != nil {
 		return nil, err
